@@ -100,6 +100,11 @@ fn shared_envelope() -> Envelope {
         .add_assertion("when", dcbor::Date::from_timestamp(1720091471.0))
         .add_assertion("custom", CBOR::to_tagged_value(999, "payload"))
         .add_assertion(KnownValue::new(4242), Envelope::new(Function::from(4343u64)).add_assertion(Envelope::new(Parameter::from(4444u64)), KnownValue::new(4545)))
+        // value-dependent corners of the formatters (a panic or a re-entrant lock while the global context is held poisons / blocks it for every
+        // thread): a text leaf longer than the tree formatter's 40-character summary with multi-byte characters around the cut, and a leaf that
+        // EMBEDS an envelope holding a known value, a function and a date (the formatter decodes and formats it while holding the context)
+        .add_assertion("long", format!("{}é漢字{}", "x".repeat(38), "y".repeat(10)))
+        .add_assertion("embedded", Envelope::new("inner").add_assertion(known_values::IS_A, Function::from(1u64)).add_assertion(known_values::DATE, dcbor::Date::from_timestamp(0.0)).to_cbor())
 }
 type Config = Vec<Vec<usize>>;
 fn run_program(p: &[usize], e: &Envelope) -> Vec<String> { p.iter().map(|op| run_op(*op, e)).collect() }
